@@ -40,8 +40,11 @@ def main():
         })
     man = {
         "version": 1,
-        "setup_cmd": "cd lean && lake build FunsorVerif.Audit " + " ".join(
-            f"drv_{p.lower()} " + " ".join(_props_modules(p)) for p in sorted(CLAIMED)),
+        # drivers + audit must build; the Props modules are pre-built for speed only — every check rebuilds its own
+        # (after regenerating Gen/* from /repo), so a stale generated snapshot must not fail the setup.
+        "setup_cmd": "cd lean && lake build FunsorVerif.Audit " + " ".join(f"drv_{p.lower()}" for p in sorted(CLAIMED))
+                     + " && (lake build " + " ".join(" ".join(_props_modules(p)) for p in sorted(CLAIMED))
+                     + " || echo 'setup: some Props modules did not build from the committed Gen snapshot; checks rebuild them')",
         "hooks": {
             "guard": "FUNSOR_VERIF",
             "enable": "no hooks are needed: harnesses observe funsor through public/run-time attributes only",
